@@ -246,6 +246,23 @@ def register(R, tier="quick"):
                                 "self._doc_offsets.append(self._doccount + len(r))")],
                note="without explicit offsets the column readers are concatenated by their lengths")
 
+    def mk_init_explicit(I):
+        rs = ColReaders(I)
+        offs = SymList(z3.Array(I.fresh_name("xoffs"), IntS, IntS), z3.Int(I.fresh_name("nxoffs")), "list")
+        return {"self": Obj(I.repo.klass(COLS, "MultiColumnReader")), "readers": rs, "offsets": offs}
+
+    R.contract(COLS + ":MultiColumnReader.__init__", label=COLS + ":MultiColumnReader.__init__#explicit-offsets", props=["C06", "C08"],
+               setup=mk_init_explicit,
+               # what MultiReader.column_reader passes: the readers' document offsets (running sums of their sizes)
+               requires=[lambda I, env: z3.Exists([z3.Int("xtotal")], offsets_ok(I, env["offsets"], env["readers"].n, z3.Int("xtotal")))],
+               ensures=[lambda I, env: offsets_ok(I, env["self"].fields["_doc_offsets"], env["readers"].n,
+                                                  to_z3(env["self"].fields["_doccount"])),
+                        "self._readers is readers", "self._doc_offsets is offsets"],
+               opts={"sym_empty_lists": True},
+               canaries=[Canary("length-not-set", "self._doccount = offsets[-1] + len(readers[-1])", "pass")],
+               note="with the offsets MultiReader passes, the combined column has as many rows as the last reader's offset plus "
+                    "its length (len() of the combined column; ColumnQuery walks it)")
+
     def mcr_get_post(I, env):
         s = env["self"]
         a = s.fields["_doc_offsets"].arr
